@@ -349,6 +349,18 @@ def _fdesc(fault):
 VARIANTS = [(b, t, u) for b in (True, False) for t in (False, True) for u in (True, False)]
 
 
+def _crc16_back16(t):
+    """The 16-bit register value y with  advance-16-zero-bits(y) == t  for CRC-16/XMODEM (polynomial 0x1021, which has bit 0
+    set, so the low bit of a state tells whether the last step folded the polynomial in)."""
+    s = t
+    for _ in range(16):
+        if s & 1:
+            s = ((s ^ 0x1021) >> 1) | 0x8000
+        else:
+            s >>= 1
+    return s
+
+
 class AddrWireWorld(World):
     name = 'WIRE-TEXT'
     chunk = 4
@@ -358,7 +370,7 @@ class AddrWireWorld(World):
     def __init__(self, prop, tier):
         super().__init__(prop, tier)
         q = tier == 'quick'
-        self.legs = [('roundtrip', 256), ('substitution', 96 if q else 2500), ('crowd', 400 if q else 20000)]
+        self.legs = [('roundtrip', 256), ('substitution', 96 if q else 2500), ('crowd', 400 if q else 20000), ('checksum', 1200 if q else 60000)]
         self.budget = {'quick': 100, 'thorough': 1500}
 
     def get_legs(self):
@@ -370,6 +382,8 @@ class AddrWireWorld(World):
                 'Leg substitution, EXHAUSTIVE per sampled address and variant: all 48 positions x 63 other characters of the variant\'s own alphabet; every substituted text must be rejected. '
                 'Leg crowd: one process renders and parses a FAMILY of related addresses interleaved (neighbours (wc+d, account-d), accounts differing by multiples of 2^61-1 or in one bit, '
                 'the same account in several workchains) in seeded order and variants: every text must be the reference layout of its own address and parse back to it, whatever was rendered or parsed before. '
+                'Leg checksum: the last two bytes of the account id are solved (the CRC is linear) so that one variant\'s text carries a chosen checksum - 0000, ffff, one zero byte, single bits - '
+                'then round trip, relays to three other variants and every substitution in the four checksum characters and the first two. '
                 'evaluations = parses; non-trivial = every run (each delivers faults or covers a distinct workchain); distinct = distinct (workchain class, variant set).')
 
     def assumptions(self):
@@ -380,6 +394,10 @@ class AddrWireWorld(World):
         if leg == 'roundtrip':
             acc = [bytes(32), b'\xff' * 32][run_index % 7] if run_index % 7 < 2 else bytes(rng.getrandbits(8) for _ in range(32))
             return {'wc': run_index - 128, 'acc': acc.hex(), 'leg': leg}
+        if leg == 'checksum':
+            # the account id's last two bytes are solved so that the friendly form of ONE variant carries a chosen checksum
+            return {'wc': rng.choice([-1, 0, 0, -128, 127, rng.randint(-128, 127)]), 'acc': bytes(rng.getrandbits(8) for _ in range(32)).hex(), 'leg': leg, 'variant': rng.randrange(8),
+                    'target': rng.choice([0x0000, 0x0000, 0xFFFF, 0x0001, 0x8000, 0x0100, 0x00FF, 0xFF00, 0x0080, rng.getrandbits(8), rng.getrandbits(8) << 8, 0xFBFF, 0xFFEF])}
         if leg == 'crowd':
             return {'wc': rng.choice([-1, 0, 0, -127, 126, rng.randint(-127, 126)]), 'acc': (rng.choice([5, 2 ** 255, 2 ** 256 - 2 ** 62, rng.getrandbits(256) | 2 ** 70]) - 0).to_bytes(32, 'big').hex(), 'leg': leg,
                     'family': rng.choice(['diagonal', 'mersenne', 'bitflip', 'workchains', 'mixed'])}
@@ -442,6 +460,33 @@ class AddrWireWorld(World):
         cfg = ctx.cfg
         if cfg['leg'] == 'crowd':
             return self.run_crowd(ctx)
+        if cfg['leg'] == 'checksum':
+            v = cfg['variant']
+            b, t, u = VARIANTS[v]
+            acc = bytearray(bytes.fromhex(cfg['acc']))
+            head = bytes([(0x11 if b else 0x51) | (0x80 if t else 0), cfg['wc'] & 0xFF]) + bytes(acc[:30])
+            r = int.from_bytes(refboc.crc16_xmodem(head), 'big')
+            x = r ^ _crc16_back16(cfg['target'])
+            acc[30:32] = x.to_bytes(2, 'big')
+            if int.from_bytes(refboc.crc16_xmodem(head + bytes(acc[30:32])), 'big') != cfg['target']:
+                raise AssertionError('checksum solver is wrong')
+            aop = {'op': 'address', 'wc': cfg['wc'], 'acc': bytes(acc).hex()}
+            ctx.op(aop)
+            ctx.tag(cfg['wc'], v, '%04x' % cfg['target'])
+            ctx.probe('friendly-text-with-engineered-checksum/%s' % ('0000' if cfg['target'] == 0 else 'ffff' if cfg['target'] == 0xFFFF else 'zero-byte' if cfg['target'] & 0xFF == 0 or cfg['target'] >> 8 == 0 else 'other'))
+            text = self._check(ctx, aop, {'op': 'render', 'variant': v})
+            self._check(ctx, aop, {'op': 'render', 'variant': 'raw'})
+            for v2 in (v ^ 1, v ^ 2, v ^ 4):
+                self._relay(ctx, aop, {'op': 'relay', 'variant': v, 'to': v2, 'copy': bool(cfg['target'] & 1)})
+            if text is not None:
+                # typos in the checksum characters themselves and next to them
+                alph = B64_URL if VARIANTS[v][2] else B64_STD
+                rop = {'op': 'render', 'variant': v}
+                for pos in (44, 45, 46, 47, 0, 1):
+                    for ch in alph:
+                        if ch != text[pos]:
+                            self._subst(ctx, aop, rop, text, pos, ch, times=1)
+            return
         aop = {'op': 'address', 'wc': cfg['wc'], 'acc': cfg['acc']}
         ctx.op(aop)
         ctx.tag(cfg['wc'], cfg.get('variants'), cfg['acc'][:4])
